@@ -652,6 +652,7 @@ class CommandPipeline:
             ):
                 self._close_prev_procs()
             self._close_proc()
+            self._restore_signal_handlers()
             # Mark as ended even if an exception occurred (e.g. KeyboardInterrupt).
             # Without this, subsequent access to the pipeline would try to
             # re-read from already-closed pipes → ValueError.
@@ -869,6 +870,32 @@ class CommandPipeline:
         self._safe_close(p.stderr)
         for ch in getattr(p, "pipe_channels", ()):
             ch.close()
+
+    def _restore_signal_handlers(self):
+        """Every proc object gives the signal handlers it swapped back, the last
+        started first. A proc in front of the last one is only joined, never
+        waited for, and the last one is not waited for either when ``_end`` is
+        left early (exception, interrupted proc), so ``wait()`` cannot be the
+        only place that restores them.
+        """
+        for p in reversed(self.procs):
+            # PopenThread._clean_up restores all of its handlers (and the
+            # terminal's suspend character); a ProcProxyThread has SIGINT
+            # (and SIGBREAK on Windows). All of these are idempotent.
+            restores = [
+                getattr(p, name)
+                for name in ("_clean_up",)
+                if hasattr(p, name)
+            ] or [
+                getattr(p, name)
+                for name in ("_restore_sigint", "_restore_sigbreak")
+                if hasattr(p, name)
+            ]
+            for restore in restores:
+                try:
+                    restore()
+                except Exception:
+                    pass
 
     def _set_input(self):
         """Sets the input variable."""
